@@ -249,6 +249,9 @@ class TrioEventLoop(EventLoop):
         we cannot simply use a try..catch clause, we need a helper function like this.
         """
         self._idle_callbacks.clear()
+        if isinstance(exc, BaseExceptionGroup) and len(exc.exceptions) > 1 and all(isinstance(e, ExitMainLoop) for e in exc.exceptions):
+            # several callbacks of one batch asked to exit
+            return
         if isinstance(exc, BaseExceptionGroup) and len(exc.exceptions) == 1:
             exc = exc.exceptions[0]
 
